@@ -8,10 +8,10 @@ import os
 
 import common
 
-ALL_KINDS = ["call", "cali", "lam", "inpl", "upd", "set", "view", "rev", "cast", "assert", "op", "dim"]
+ALL_KINDS = ["call", "cali", "lam", "inpl", "upd", "set", "view", "rev", "cast", "assert", "op", "dim", "cut", "gen"]
 # kind subsets for the exhaustive 3-node runs: every subset has a fresh, an in-place and an aliasing / transparent kind
 SUBSETS = [["call", "inpl", "view", "dim", "op"], ["cali", "upd", "rev", "assert"], ["lam", "set", "cast", "inpl"],
-           ["call", "upd", "cast", "rev"], ["cali", "inpl", "assert", "view"], ["lam", "call", "set", "dim"]]
+           ["call", "gen", "lam", "cut"], ["call", "upd", "cast", "rev"], ["cali", "inpl", "assert", "view"], ["lam", "call", "set", "dim"]]
 
 
 def _spec_hash():
@@ -47,7 +47,7 @@ def jobs_for(tier, seed):
     inv = ["IdOrderValid", "PureIsWellFormed"]
     jobs = [("ex2_all", ALL_KINDS, 2, 2, None, 0, 0, 1, inv, 1500)]
     if tier == "quick":
-        jobs += [("ex3_s%d" % i, ks, 3, 1, None, 0, 0, 1, inv, 1500) for i, ks in enumerate(SUBSETS[:2])]
+        jobs += [("ex3_s%d" % i, ks, 3, 1, None, 0, 0, 1, inv, 1500) for i, ks in enumerate(SUBSETS[:3])]
         jobs += [("sim5_%d" % i, ALL_KINDS, 5, 2, "num=60", seed * 100 + i + 1, 0, 1, inv, 1500) for i in range(4)]
     else:
         jobs += [("ex3_s%d" % i, ks, 3, 2, None, 0, 0, 1, inv, 6000) for i, ks in enumerate(SUBSETS)]
